@@ -7,7 +7,7 @@
     Theorem statements only; every proof lives in Proofs/NamespaceFacts.v. *)
 From Coq Require Import List Bool NArith ZArith String Permutation.
 From PSA Require Import Base.Str Model.Api Model.Pod Model.Checks Model.Registry Model.Admission Model.Namespace
-     Spec.P05 Spec.PAdm Proofs.NamespaceFacts.
+     Spec.P05 Spec.PAdm Proofs.NamespaceFacts Proofs.AdmFactsE.
 Import ListNotations.
 
 (** the relation P_11 holds of every observation of the model *)
@@ -90,3 +90,29 @@ Proof.
   split; [apply Permutation_rev|]. vm_compute. repeat split. repeat constructor.
 Qed.
 Print Assumptions C11_example_order.
+
+(** finding F3, as a theorem about the faithful model: the clause "one line per
+    distinct set of violated controls" ([P11_control_sets]) is refuted by a
+    concrete tightening namespace update over two listed pods that violate the
+    same control with differently worded reasons *)
+Theorem C11_control_sets_refuted : exists c ev r w, P11_control_sets c ev r w (validate c ev r w) = false.
+Proof. exact P11_control_sets_refuted_proof. Qed.
+Print Assumptions C11_control_sets_refuted.
+
+(** the same with the shipped registry: pods "a" (one forbidden AppArmor
+    profile) and "b" (two) violate exactly the same control set, yet get one
+    line each, because lines are grouped by reason text - which [P11] specifies
+    and the model satisfies *)
+Example C11_control_sets_refuted_shipped :
+  rs_warnings (fst (validate f3_cfg shipped_ev f3_req f3_world_shipped))
+  = ["existing pods in namespace ""ns"" violate the new PodSecurity enforce level ""baseline:latest""";
+     "a: forbidden AppArmor profile"; "b: forbidden AppArmor profiles"]%string
+  /\ map (s_control_set shipped_ev (LV Baseline Latest))
+         [aa_pod "a" [("container.apparmor.security.beta.kubernetes.io/c", "unconfined")]%string;
+          aa_pod "b" [("container.apparmor.security.beta.kubernetes.io/c", "unconfined");
+                      ("container.apparmor.security.beta.kubernetes.io/d", "bogus")]%string]
+     = ["forbidden AppArmor profile"; "forbidden AppArmor profile"]%string
+  /\ P11_control_sets f3_cfg shipped_ev f3_req f3_world_shipped (validate f3_cfg shipped_ev f3_req f3_world_shipped) = false
+  /\ P11 f3_cfg shipped_ev f3_req f3_world_shipped (validate f3_cfg shipped_ev f3_req f3_world_shipped) = true.
+Proof. exact P11_control_sets_refuted_shipped_proof. Qed.
+Print Assumptions C11_control_sets_refuted_shipped.
